@@ -344,6 +344,11 @@ impl C10 {
         let mut rng = Rng::for_case("C10rt", self.seed, idx);
         let mut a = self.boot.clone();
         let mut log = vec![];
+        if rng.chance(1, 3) {
+            a.set_recording_enabled(true);
+            log.push("recording on".to_string());
+            obs.count("runtime_cases_with_recording");
+        }
         for k in 0..rng.below(4) {
             let src = history_source(&mut rng, k);
             let style = rng.below(2);
